@@ -528,7 +528,15 @@ def gen_chain_world(rng: random.Random) -> dict:
     var("x")  # an input series
     step = pick(rng, [["c", 1.0], ["c", 2.0], rd("x"), ["b", "+", rd("x"), ["c", 1.0]]])
     back = pick(rng, ["last_month", "last_month", ["off", -2, "month"]])
-    var("h", ["b", pick(rng, ["+", "+", "max"]), rd("h", back), step])
+    yearly = chance(rng, 0.35)
+    if yearly:
+        # the chain runs through a yearly base: h(m) = yb(year of m) + ..., yb(y) = h(month
+        # before y) - a rule with a longer definition period inside the quasi-circular window,
+        # which monthly rules read whole (this_year) or divided over its months (DIVIDE)
+        vs.append({"name": "yb", "entity": "person", "type": typ, "unit": "year", "formulas": {"0001-01-01": ["b", "+", rd("h", "last_month"), ["c", 12.0]]}})
+        var("h", ["b", pick(rng, ["+", "+", "max"]), rd("yb", "this_year"), step])
+    else:
+        var("h", ["b", pick(rng, ["+", "+", "max"]), rd("h", back), step])
     chains = ["h"]
     if chance(rng, 0.4):
         var("g", ["b", "+", rd("g", "last_month"), rd("h", pick(rng, ["this", "last_month"]))])
@@ -536,8 +544,12 @@ def gen_chain_world(rng: random.Random) -> dict:
     readers = []
     for k in range(rng.randint(1, 3)):
         c = pick(rng, chains)
-        kind = pick(rng, ["win", "win", "plain", "two"])
-        if kind == "win":
+        kind = pick(rng, ["win", "win", "plain", "two"] + (["div", "div", "whole"] if yearly else []))
+        if kind == "div":
+            f = rd("yb", "this", "DIVIDE")
+        elif kind == "whole":
+            f = rd("yb", "this_year")
+        elif kind == "win":
             f = rd(c, ["win", pick(rng, [1, 2, 2, 3]), "month"], "ADD")
         elif kind == "plain":
             f = rd(c, pick(rng, ["this", "last_month", ["off", -2, "month"]]))
